@@ -2,6 +2,8 @@
 from __future__ import annotations
 
 import calendar
+import email.utils
+import itertools
 import math
 import os
 import re
@@ -21,20 +23,63 @@ RULES = {
     "values": "exhaustive: every code point 0..255 as a cookie value in 6 positions (alone, doubled, start, middle, end of 'ab', "
     "between quotes) sent through both response classes and read back through both request classes alone and among foreign "
     "cookies; non-trivial = the character is outside the unquoted-legal set",
-    "cookies": "Hypothesis: 1..4 cookies per response with token names, Latin-1 values weighted to quotes, backslashes, ';', ',', '=', "
-    "blanks, controls and octal/quoted look-alikes, expires/max_age values and a process time zone (POSIX TZ strings east/west of "
-    "UTC, DST, +5:45); non-trivial = a value with a character outside the unquoted-legal set, or a non-UTC zone with expires given",
+    "cookies": "Hypothesis: 1..4 cookies per response with token names (random, case/prefix variants, attribute-like and prefixed names), "
+    "Latin-1 values weighted to quotes, backslashes, ';', ',', '=', blanks, controls and octal/quoted look-alikes, expires/max_age values "
+    "from seconds to 136 years, path/domain/secure/httponly/samesite options and a process time zone (POSIX TZ strings east/west of "
+    "UTC, DST north and south, +5:45, half-hour DST); non-trivial = a value with a character outside the unquoted-legal set, or a non-UTC zone with expires given",
     "delete": "delete_cookie under every zone: emitted cookie already expired (Max-Age <= 0 and Expires <= now)",
+    "names": "enumerated: cookie sets whose names differ only in letter case / are prefixes of one another; every token character alone, "
+    "first, last, inside and doubled in a name; names spelled like Set-Cookie attributes, RFC 2109 '$' attributes, __Host-/__Secure- "
+    "prefixes, percent escapes, numbers, 64..300 characters - alone, all together on one response, with and without attributes",
+    "calendar": "enumerated: expires chosen so that now+expires lands on a fixed grid of instants (every hour of a day, every day of a month, "
+    "every month, month and year boundaries incl. the ISO-week-year days, leap days 2028/2100, 2038-01-19 and 2106 roll-overs, DST switch "
+    "seconds, 1970, 2999), each under UTC and rotating zones; the Expires text must be the RFC 1123 spelling (weekday and month names included) "
+    "of an instant inside the bracket; non-trivial = always",
+    "attrs": "enumerated grid expires x max_age (None, negative, 0, seconds, 400 days +-1 s, 800 days, 10/20 years, 2^31, 2^32+5; max_age up to 2^40) "
+    "with rotating path/domain/secure/httponly/samesite options and zones; non-trivial = expires or max_age given",
+    "ops": "enumerated histories on ONE response object (set / delete / wait / send, change and send again): set then delete of one name and the reverse, deletes of one "
+    "name under different paths or domains, deletes with every option, deletes of every one-character token name and of the attribute-like "
+    "names, deletes between sets, real waits of 1.05 s between construction, set_cookie and delete_cookie; every delete must emit an expired "
+    "line for its (name, path, domain), the last line of every cookie identity must be its last operation; through every response class",
+    "ops_rand": "Hypothesis: random histories of 1..8 set / delete / send operations on one response object over six names (case variants, "
+    "an attribute-like name) and eight option sets, so that cookie identities coincide now and then; judged like 'ops'; non-trivial = always",
+    "long": "enumerated sizes: values of 63..16384 characters (legal only, one special character at the start / after 64 / 4096 / at the end, "
+    "all escaped), 21..120 cookies on one response, 60..400 foreign cookies before / after / around (Cookie header up to ~20 kB); foreign cookies "
+    "carry raw 8-bit values, UTF-8 bytes, '=' inside values, empty values and a bare word without '='",
+    "pairs": "enumerated: all ordered pairs over 53 hostile characters, each hostile character followed by three octal digits, runs of 3..5 "
+    "equal hostile characters (thorough tier: all 65536 ordered pairs of code points)",
+    "classes": "enumerated: the same cookie sets on every response class (Response with status 200/204/304/404/500, PlainText incl. 401, HTML, JSON, Redirect, Stream, File incl. 206 and 416 answers)",
 }
 ASSUMPTIONS = [
-    "the Expires text is compared with a [floor(t0+e), floor(t1+e)] bracket taken around the call, so the oracle does not depend on how the code reads the clock",
-    "cookie names within one response are distinct (with duplicates the last one wins on the request side)",
+    "the Expires text is compared with a [floor(t0+e), floor(t1+e)] bracket taken around the call, so the oracle does not depend on how the code reads the clock "
+    "(1 microsecond is added to the upper end: datetime.fromtimestamp rounds to the nearest microsecond)",
+    "cookie names within one response are distinct (with duplicates the last one wins on the request side); in the 'ops' histories a cookie identity "
+    "(name, path, domain) that is set/deleted more than once may be emitted once or once per operation, the last line must be the last operation",
+    "waits in 'ops' are real sleeps (3 cases, about 1 s each): a slow machine only widens the bracket",
 ]
 
-ZONES = ["UTC0", "CST-8", "EST5EDT,M3.2.0,M11.1.0", "NPT-5:45", "WST-13", "GMT0BST,M3.5.0/1,M10.5.0", "HST10", "Asia/Shanghai", "America/New_York"]
+ZONES = [
+    "UTC0", "CST-8", "EST5EDT,M3.2.0,M11.1.0", "NPT-5:45", "WST-13", "GMT0BST,M3.5.0/1,M10.5.0", "HST10", "Asia/Shanghai", "America/New_York",
+    "AEST-10AEDT,M10.1.0,M4.1.0/3", "LHST-10:30LHDT-11,M10.1.0,M4.1.0", "NST3:30NDT,M3.2.0,M11.1.0", "<+14>-14", "<-12>12",
+]
+DST_ZONES = ["EST5EDT,M3.2.0,M11.1.0", "GMT0BST,M3.5.0/1,M10.5.0", "America/New_York", "AEST-10AEDT,M10.1.0,M4.1.0/3", "LHST-10:30LHDT-11,M10.1.0,M4.1.0", "NST3:30NDT,M3.2.0,M11.1.0"]
 TOKEN_CHARS = "!#$%&'*+-.^_`|~0123456789ABCDEFGHIJKLMNOPQRSTUVWXYZabcdefghijklmnopqrstuvwxyz"
 UNQUOTED_LEGAL = set("!#$%&'*+-.^_`|~:0123456789ABCDEFGHIJKLMNOPQRSTUVWXYZabcdefghijklmnopqrstuvwxyz")
 _EXPIRES = re.compile(r"^[A-Z][a-z]{2}, [0-9]{2} [A-Z][a-z]{2} [0-9]{4} [0-9]{2}:[0-9]{2}:[0-9]{2} GMT$")
+
+# names a parser written for Set-Cookie / RFC 2109 might mistake for something else (all are HTTP tokens)
+SPECIAL_NAMES = [
+    "path", "Path", "PATH", "domain", "Domain", "expires", "Expires", "EXPIRES", "max-age", "Max-Age", "MAX-AGE", "secure", "Secure", "httponly", "HttpOnly",
+    "samesite", "SameSite", "comment", "Comment", "version", "Version", "priority", "Priority", "partitioned", "Partitioned", "discard", "port", "commenturl",
+    "$Version", "$Path", "$Domain", "$Port", "$", "$$x", "__Host-sid", "__Secure-sid", "__host-sid", "__Host-", "__Secure-", "__Http-x", "_", "__",
+    "%20", "a%20b", "%3D", "a%3Db", "%", "%%", "%41", "0", "00", "007", "1e5", "-1", "+1", "0x10", "null", "None", "true", "undefined", "NaN", "Cookie", "Set-Cookie", "cookie2",
+]
+# foreign cookies never collide with generated names: generated names are shorter than 7 characters, enumerated ones never start with "frgn-"
+_FOREIGN_VALUES = [
+    "abc123", '"dark mode"', "dG9rZW4/+w==", "", "1", '"a\\054b"', "GA1.2.1234567890.1700000000", "a=b=c", "%7B%22k%22%3A1%7D", "x" * 40,
+    # what other software (and document.cookie) really sends: raw 8-bit text, UTF-8 bytes, bytes that are not UTF-8
+    "caf\xe9", "\xe6\x97\xa5\xe6\x9c\xac", "\xff\xfe", '"\xe9 \xff"',
+]
 
 
 class _Zone:
@@ -54,22 +99,55 @@ class _Zone:
         time.tzset()
 
 
-def emit(side, cookies, deletes=()):
-    """Build a response, set the cookies, send it through the gateway -> (set-cookie lines, t0, t1, run)."""
-    mod = bwsgi if side == "wsgi" else basgi
-    resp = mod.Response(200)
-    t0 = time.time()
-    for c in cookies:
-        kw = {}
-        if c.get("expires") is not None:
-            kw["expires"] = c["expires"]
-        if c.get("max_age") is not None:
-            kw["max_age"] = c["max_age"]
-        resp.set_cookie(c["name"], c["value"], **kw)
-    for name in deletes:
-        resp.delete_cookie(name)
-    t1 = time.time()
-    rq = gw.areq()
+# response classes: (recipe for harness.recipes.build_response, extra request headers)
+KINDS = {
+    "empty": ({"kind": "empty"}, []),
+    "empty204": ({"kind": "empty", "status": 204}, []),
+    "empty304": ({"kind": "empty", "status": 304}, []),
+    "empty404": ({"kind": "empty", "status": 404}, []),
+    "empty500": ({"kind": "empty", "status": 500}, []),
+    "plain401": ({"kind": "plain", "content": "login first", "status": 401}, []),
+    "plain": ({"kind": "plain", "content": "hello"}, []),
+    "html": ({"kind": "html", "content": "<p>hello</p>"}, []),
+    "json": ({"kind": "json", "content": {"a": [1, 2]}}, []),
+    "redirect": ({"kind": "redirect", "url": "/next?x=1"}, []),
+    "stream": ({"kind": "stream", "chunks": [b"ab", b"cd"]}, []),
+    "file": ({"kind": "file", "size": 20}, []),
+    "file206": ({"kind": "file", "size": 20}, [["Range", "bytes=2-5"]]),
+    "file416": ({"kind": "file", "size": 20}, [["Range", "bytes=50-"]]),
+}
+
+
+def new_response(side, kind="empty"):
+    if kind == "empty":
+        return (bwsgi if side == "wsgi" else basgi).Response(200)
+    from harness import recipes
+
+    return recipes.build_response(dict(KINDS[kind][0]), side)
+
+
+def resolve(c):
+    """A cookie whose expiry is given as an absolute instant ('at', epoch seconds) asks for expires = at - floor(now)."""
+    if c.get("at") is None:
+        return c
+    c = dict(c)
+    c["expires"] = int(c["at"]) - math.floor(time.time())
+    return c
+
+
+def set_kwargs(c):
+    kw = {}
+    if c.get("expires") is not None:
+        kw["expires"] = c["expires"]
+    if c.get("max_age") is not None:
+        kw["max_age"] = c["max_age"]
+    kw.update(c.get("opts") or {})
+    return kw
+
+
+def send(side, resp, kind="empty"):
+    """Send the response through the strict gateway -> (set-cookie lines as text, as bytes, run)."""
+    rq = gw.areq(headers=KINDS[kind][1])
     if side == "wsgi":
         run = gw.call_wsgi(resp, rq)
         lines = [v for k, v in run.headers if k.lower() == "set-cookie"]
@@ -78,6 +156,19 @@ def emit(side, cookies, deletes=()):
         run = gw.call_asgi(resp, rq)
         raw = [v for k, v in run.headers if k == b"set-cookie"]
         lines = [v.decode("latin-1") for v in raw]
+    return lines, raw, run
+
+
+def emit(side, cookies, deletes=(), kind="empty"):
+    """Build a response, set the cookies, send it through the gateway -> (set-cookie lines, t0, t1, run)."""
+    resp = new_response(side, kind)
+    t0 = time.time()
+    for c in cookies:
+        resp.set_cookie(c["name"], c["value"], **set_kwargs(c))
+    for name in deletes:
+        resp.delete_cookie(name)
+    t1 = time.time()
+    lines, raw, run = send(side, resp, kind)
     return lines, raw, t0, t1, run
 
 
@@ -104,66 +195,126 @@ def check_cookie_line(r, side, c, line, raw, t0, t1, ctx, deleted=False):
     try:
         raw.decode("ascii")
     except UnicodeDecodeError:
-        r.fail(f"C16:{side}:not-ascii", f"{ctx}: set-cookie line {raw!r} is not pure ASCII")
+        r.fail(f"C16:{side}:not-ascii", f"{ctx}: set-cookie line {raw[:300]!r} is not pure ASCII")
     if re.search(r"[\x00-\x1f\x7f]", line):
-        r.fail(f"C16:{side}:control-char-in-line", f"{ctx}: {line!r}")
+        r.fail(f"C16:{side}:control-char-in-line", f"{ctx}: {line[:300]!r}")
     pair, attrs, order = split_line(line)
     if not pair.startswith(c["name"] + "="):
-        r.fail(f"C16:{side}:pair-name", f"{ctx}: pair {pair!r} does not start with {c['name']!r}=")
+        r.fail(f"C16:{side}:pair-name", f"{ctx}: pair {pair[:300]!r} does not start with {c['name']!r}=")
         return None
     # attributes
     if len(order) != len(set(order)):
-        r.fail(f"C16:{side}:duplicate-attribute", f"{ctx}: {line!r}")
+        r.fail(f"C16:{side}:duplicate-attribute", f"{ctx}: {line[:300]!r}")
     want_expires = c.get("expires") is not None
     if ("expires" in attrs) != want_expires:
-        r.fail(f"C16:{side}:expires-presence", f"{ctx}: expires requested={want_expires}, line {line!r}")
+        r.fail(f"C16:{side}:expires-presence", f"{ctx}: expires requested={want_expires}, line {line[:300]!r}")
     elif want_expires:
         text = attrs["expires"] or ""
         if not _EXPIRES.match(text):
             r.fail(f"C16:{side}:expires-format", f"{ctx}: Expires text {text!r}")
         else:
-            got = calendar.timegm(time.strptime(text, "%a, %d %b %Y %H:%M:%S GMT"))
-            lo, hi = math.floor(t0 + c["expires"]), math.floor(t1 + c["expires"])
-            if not (lo <= got <= hi):
-                r.fail(
-                    f"C16:{side}:expires-instant",
-                    f"{ctx}: Expires {text!r} = {got}, expected within [{lo}, {hi}] (off by {got - lo} s) in TZ {os.environ.get('TZ')!r}",
-                )
-            if deleted and got > math.floor(t1):
-                r.fail(f"C16:{side}:deleted-cookie-not-expired", f"{ctx}: Expires {text!r} lies in the future")
+            try:
+                got = calendar.timegm(time.strptime(text, "%a, %d %b %Y %H:%M:%S GMT"))
+            except ValueError:
+                got = None
+                r.fail(f"C16:{side}:expires-format", f"{ctx}: Expires text {text!r} is not a date")
+            if got is not None:
+                # fromtimestamp() rounds to the nearest microsecond: one microsecond of slack at the upper end
+                lo, hi = math.floor(t0 + c["expires"]), math.floor(t1 + c["expires"] + 1e-6)
+                if not (lo <= got <= hi):
+                    r.fail(
+                        f"C16:{side}:expires-instant",
+                        f"{ctx}: Expires {text!r} = {got}, expected within [{lo}, {hi}] (off by {got - lo} s) in TZ {os.environ.get('TZ')!r}",
+                    )
+                elif email.utils.formatdate(got, usegmt=True) != text:
+                    # strptime ignores a weekday that contradicts the date: the text must be THE spelling of the instant it denotes
+                    r.fail(
+                        f"C16:{side}:expires-text-inconsistent",
+                        f"{ctx}: Expires {text!r} is not the RFC 1123 date of its own instant {got} ({email.utils.formatdate(got, usegmt=True)!r})",
+                    )
+                if deleted and got > math.floor(t1 + 1e-6):
+                    r.fail(f"C16:{side}:deleted-cookie-not-expired", f"{ctx}: Expires {text!r} lies in the future")
     ma = c.get("max_age")
     want_ma = ma is not None and ma > -1
     if ("max-age" in attrs) != want_ma:
-        r.fail(f"C16:{side}:max-age-presence", f"{ctx}: max_age={ma!r}, line {line!r}")
+        r.fail(f"C16:{side}:max-age-presence", f"{ctx}: max_age={ma!r}, line {line[:300]!r}")
     elif want_ma and attrs["max-age"] != str(ma):
         r.fail(f"C16:{side}:max-age-value", f"{ctx}: max-age={attrs['max-age']!r}, requested {ma}")
-    if deleted and not ("max-age" in attrs and int(attrs["max-age"] or "1") <= 0):
-        r.fail(f"C16:{side}:deleted-cookie-max-age", f"{ctx}: {line!r}")
+    if deleted and not ("max-age" in attrs and re.fullmatch(r"-?[0-9]+", attrs["max-age"] or "") and int(attrs["max-age"]) <= 0):
+        r.fail(f"C16:{side}:deleted-cookie-max-age", f"{ctx}: {line[:300]!r}")
     known = {"expires", "max-age", "domain", "path", "httponly", "secure", "samesite"}
     extra = [a for a in order if a not in known]
     if extra:
-        r.fail(f"C16:{side}:smuggled-attribute", f"{ctx}: unexpected attributes {extra!r} in {line!r}")
+        r.fail(f"C16:{side}:smuggled-attribute", f"{ctx}: unexpected attributes {extra!r} in {line[:300]!r}")
     return pair
+
+
+def foreign_cookies(spec):
+    """(before, after) lists of foreign name=value pairs.  spec: falsy | True (the historical three) | {"before": n, "after": m}."""
+    if not spec:
+        return [], []
+    if spec is True:
+        return ["sessionid0=abc123"], ['theme_pref="dark mode"', "zzzzzzzz1=1"]
+    mk = lambda tag, i: f"frgn-{tag}-{i:04d}={_FOREIGN_VALUES[i % len(_FOREIGN_VALUES)]}"  # noqa: E731
+    before, after = [mk("b", i) for i in range(spec.get("before", 0))], [mk("a", i) for i in range(spec.get("after", 0))]
+    if spec.get("nameless"):
+        # a cookie without '=' (document.cookie = "frgn-flag"): browsers send it back as a bare word; it is read as the value of the name ""
+        before.append("frgn-flag")
+    return before, after
+
+
+def _short(x, n=400):
+    s = repr(x)
+    return s if len(s) <= n else s[: n // 2] + f"...({len(s)} chars)..." + s[-n // 2:]
+
+
+def check_roundtrip(r, side, cookies, pairs, foreign, tag=""):
+    """pairs[i] is the serialised name=value of cookies[i]: alone and all together among foreign cookies through both request stacks."""
+    before, after = foreign_cookies(foreign)
+    for rside in ("wsgi", "asgi"):
+        for c, pair in zip(cookies, pairs):
+            got = read_back(rside, pair)
+            if got.get(c["name"]) != c["value"] or len(got) != 1:
+                r.fail(
+                    f"C16:roundtrip-alone:{side}->{rside}",
+                    f"{tag}value {_short(c['value'])} serialised as {_short(pair)} reads back as {_short(got)}",
+                )
+        header = "; ".join(before + pairs + after)
+        got = read_back(rside, header)
+        for c in cookies:
+            if got.get(c["name"]) != c["value"]:
+                r.fail(
+                    f"C16:roundtrip-among-others:{side}->{rside}",
+                    f"{tag}Cookie header {_short(header)}: {c['name']!r} reads back as {_short(got.get(c['name']))}, original {_short(c['value'])}",
+                )
+        want_n = len(cookies) + len(before) + len(after)
+        if len(got) != want_n:
+            r.fail(f"C16:roundtrip-count:{side}->{rside}", f"{tag}Cookie header {_short(header)} yields {len(got)} cookies {_short(got)}, expected {want_n}")
 
 
 def oracle(case) -> Result:
     r = Result()
     cookies = case["cookies"]
     tz = case.get("tz", "UTC0")
+    kind = case.get("kind", "empty")
     special = any(any(ch not in UNQUOTED_LEGAL for ch in c["value"]) or c["value"] == "" for c in cookies)
-    r.nontrivial = special or (tz != "UTC0" and any(c.get("expires") is not None for c in cookies))
-    r.label(f"tz={tz}", f"n={len(cookies)}")
+    timed = any(c.get("expires") is not None or c.get("at") is not None for c in cookies)
+    r.nontrivial = special or (tz != "UTC0" and timed) or bool(case.get("nt"))
+    r.label(f"tz={tz}", f"n={len(cookies)}" if len(cookies) < 6 else "n>=6")
     if special:
         r.label("needs-quoting")
+    if kind != "empty":
+        r.label(f"kind={kind}")
     with _Zone(tz):
         for side in ("wsgi", "asgi"):
-            lines, raw, t0, t1, run = emit(side, cookies)
-            ctx = f"{side} cookies={cookies!r} tz={tz}"
+            cookies = [resolve(c) for c in case["cookies"]]
+            lines, raw, t0, t1, run = emit(side, cookies, kind=kind)
+            ctx = f"{side} cookies={_short(cookies)} tz={tz}" + (f" kind={kind}" if kind != "empty" else "")
             if run.exc is not None:
                 r.fail(f"C16:{side}:response-raised:{type(run.exc).__name__}", f"{ctx}: {run.exc!r}")
                 continue
             if len(lines) != len(cookies):
-                r.fail(f"C16:{side}:line-count", f"{ctx}: {len(lines)} set-cookie lines: {lines!r}")
+                r.fail(f"C16:{side}:line-count", f"{ctx}: {len(lines)} set-cookie lines: {_short(lines)}")
                 continue
             pairs = []
             for c, line, rw in zip(cookies, lines, raw):
@@ -172,25 +323,7 @@ def oracle(case) -> Result:
             if any(p is None for p in pairs):
                 continue
             # round trip: alone, and all together among foreign cookies
-            for rside in ("wsgi", "asgi"):
-                for c, pair in zip(cookies, pairs):
-                    got = read_back(rside, pair)
-                    if got.get(c["name"]) != c["value"] or len(got) != 1:
-                        r.fail(
-                            f"C16:roundtrip-alone:{side}->{rside}",
-                            f"value {c['value']!r} serialised as {pair!r} reads back as {got!r}",
-                        )
-                header = "; ".join((["sessionid0=abc123"] if case.get("foreign") else []) + pairs + (['theme_pref="dark mode"', "zzzzzzzz1=1"] if case.get("foreign") else []))
-                got = read_back(rside, header)
-                for c in cookies:
-                    if got.get(c["name"]) != c["value"]:
-                        r.fail(
-                            f"C16:roundtrip-among-others:{side}->{rside}",
-                            f"Cookie header {header!r}: {c['name']!r} reads back as {got.get(c['name'])!r}, original {c['value']!r}",
-                        )
-                want_n = len(cookies) + (3 if case.get("foreign") else 0)
-                if len(got) != want_n:
-                    r.fail(f"C16:roundtrip-count:{side}->{rside}", f"Cookie header {header!r} yields {len(got)} cookies {got!r}, expected {want_n}")
+            check_roundtrip(r, side, cookies, pairs, case.get("foreign"))
     return r
 
 
@@ -210,17 +343,114 @@ def oracle_delete(case) -> Result:
     return r
 
 
+def _identity(name, opts):
+    """What identifies a cookie for a browser: name, Path and Domain as they will be emitted (set_cookie defaults: path='/', no domain)."""
+    opts = opts or {}
+    return (name, opts.get("path", "/") or None, opts.get("domain") or None)
+
+
+def _judge_ops(r, side, calls_done, lines, raw, ctx, foreign):
+    """Set-Cookie lines of one transmission against the set/delete calls made on the response object so far."""
+    by_id = {}
+    for op, t0, t1 in calls_done:
+        by_id.setdefault(_identity(op["name"], op.get("opts")), []).append((op, t0, t1))
+    got_id = {}
+    for line, rw in zip(lines, raw):
+        pair, attrs, _ = split_line(line)
+        ident = (pair.partition("=")[0], attrs.get("path"), attrs.get("domain"))
+        got_id.setdefault(ident, []).append((line, rw))
+    stray = [k for k in got_id if k not in by_id]
+    if stray:
+        r.fail(f"C16:{side}:ops-stray-line", f"{ctx}: set-cookie lines for (name, path, domain) {stray!r} that no call asked for: {_short(lines)}")
+    set_cookies, set_pairs = [], []
+    for ident, calls in by_id.items():
+        have = got_id.get(ident, [])
+        last_is_delete = calls[-1][0]["op"] == "delete"
+        if not have:
+            bucket = "deleted-cookie-no-line" if last_is_delete else "ops-cookie-no-line"
+            r.fail(f"C16:{side}:{bucket}", f"{ctx}: no set-cookie line for (name, path, domain) = {ident!r}: {_short(lines)}")
+            continue
+        if len(have) > len(calls):
+            r.fail(f"C16:{side}:ops-line-count", f"{ctx}: {len(have)} lines for {ident!r} from {len(calls)} calls: {_short(lines)}")
+            continue
+        # one line per call, or (an implementation that replaces an earlier line of the same cookie) at least the last call
+        todo = list(zip(calls, have)) if len(have) == len(calls) else [(calls[-1], have[-1])]
+        for (op, t0, t1), (line, rw) in todo:
+            if op["op"] == "delete":
+                check_cookie_line(r, side, {"name": op["name"], "value": "", "expires": 0, "max_age": 0}, line, rw, t0, t1, ctx, deleted=True)
+            else:
+                pair = check_cookie_line(r, side, op, line, rw, t0, t1, ctx)
+                if pair is not None and len(calls) == 1:
+                    set_cookies.append(op)
+                    set_pairs.append(pair)
+    names = [c["name"] for c in set_cookies]
+    if len(set(names)) == len(names) and set_cookies:
+        check_roundtrip(r, side, set_cookies, set_pairs, foreign, tag="ops: ")
+
+
+def oracle_ops(case) -> Result:
+    """A history of set_cookie / delete_cookie calls, real waits and transmissions on ONE response object per side
+    (a response object is an application: it may be sent, changed, and sent again)."""
+    r = Result()
+    tz = case.get("tz", "UTC0")
+    kind = case.get("kind", "empty")
+    ops = case["ops"]
+    r.nontrivial = True
+    r.label(f"tz={tz}", f"kind={kind}", "ops=" + "".join(o["op"][0] for o in ops)[:12])
+    sides = ("wsgi", "asgi")
+    with _Zone(tz):
+        resp = {side: new_response(side, kind) for side in sides}
+        done = {side: [] for side in sides}  # (op, t0, t1)
+        for n, op in enumerate(list(ops) + [{"op": "send"}]):
+            if op["op"] == "wait":
+                time.sleep(op["seconds"])
+                continue
+            for side in sides:
+                if op["op"] == "send":
+                    lines, raw, run = send(side, resp[side], kind)
+                    ctx = f"{side} ops={_short(ops)} tz={tz} kind={kind}" + ("" if n == len(ops) else f" transmission after {n} ops")
+                    if run.exc is not None:
+                        r.fail(f"C16:{side}:response-raised:{type(run.exc).__name__}", f"{ctx}: {run.exc!r}")
+                        continue
+                    _judge_ops(r, side, done[side], lines, raw, ctx, case.get("foreign"))
+                    continue
+                t0 = time.time()
+                if op["op"] == "set":
+                    resp[side].set_cookie(op["name"], op["value"], **set_kwargs(op))
+                else:
+                    resp[side].delete_cookie(op["name"], **(op.get("opts") or {}))
+                done[side].append((op, t0, time.time()))
+    return r
+
+
 SUBS = {"values": oracle, "cookies": oracle, "delete": oracle_delete}
 
 
 def name_cases():
-    """Several cookies on one response whose names differ only in letter case, or are prefixes of one another."""
-    import itertools
-
+    """Several cookies on one response whose names differ only in letter case, or are prefixes of one another;
+    every token character in every position of a name; names that look like something else."""
     for group in (["sid", "SID"], ["SID", "sid"], ["Sid", "sid", "SID"], ["a", "ab"], ["ab", "a"], ["k", "k2", "K"], ["token", "Token", "tokens"], ["x-y", "X-Y"]):
         for values in (["1", "2", "3"], ['q"1', "", "a b"], ["same", "same", "same"]):
             for extra in ({}, {"expires": 60}, {"max_age": 0}):
                 yield {"cookies": [dict({"name": n, "value": v}, **extra) for n, v in zip(group, values)], "tz": "UTC0", "foreign": bool(extra)}
+    # every token character alone / first / last / inside / doubled
+    for i, ch in enumerate(TOKEN_CHARS):
+        names = [ch, ch + "a", "a" + ch, "a" + ch + "b", ch + ch]
+        names = list(dict.fromkeys(names))
+        yield {"cookies": [{"name": n, "value": ["v", "a b", ""][(i + j) % 3]} for j, n in enumerate(names)], "tz": "UTC0", "foreign": i % 2 == 0, "nt": True}
+        yield {"cookies": [{"name": ch, "value": 'x;"y'}], "tz": "UTC0", "foreign": i % 2 == 1}
+    # names that a Set-Cookie / RFC 2109 / prefix-aware parser might treat specially
+    for i, n in enumerate(SPECIAL_NAMES):
+        yield {"cookies": [{"name": n, "value": "v1"}], "tz": "UTC0", "foreign": False, "nt": True}
+        yield {"cookies": [{"name": n, "value": "a b;c"}], "tz": "UTC0", "foreign": {"before": 2, "after": 1}}
+        yield {"cookies": [{"name": "first", "value": "1"}, {"name": n, "value": "/", "expires": 3600, "max_age": 3600}, {"name": "last", "value": "2"}], "tz": ZONES[i % len(ZONES)], "foreign": {"before": 1, "after": 2}}
+    for size in (12, len(SPECIAL_NAMES)):
+        yield {"cookies": [{"name": n, "value": f"v{j}" if j % 3 else f"v {j}"} for j, n in enumerate(SPECIAL_NAMES[:size])], "tz": "UTC0", "foreign": True}
+        yield {"cookies": [{"name": n, "value": f"v{j}"} for j, n in enumerate(reversed(SPECIAL_NAMES[:size]))], "tz": "UTC0", "foreign": False, "nt": True}
+    # long names
+    for n in (64, 65, 255, 256, 300):
+        name = (TOKEN_CHARS * 4)[:n]
+        yield {"cookies": [{"name": name, "value": "a;b"}, {"name": name[:-1], "value": "2"}, {"name": "n" * n, "value": ""}], "tz": "UTC0", "foreign": True}
 
 
 def value_cases():
@@ -228,6 +458,226 @@ def value_cases():
         ch = chr(cp)
         for pos, v in enumerate([ch, ch + ch, ch + "ab", "a" + ch + "b", "ab" + ch, '"' + ch + '"']):
             yield {"cookies": [{"name": "k", "value": v}], "tz": "UTC0", "foreign": pos % 2 == 0}
+
+
+HOSTILE = list('"\\;,= \t\x00\n\r\x0b\x0c\x1f\x7f\x80\x85\xa0\xad\xe9\xff') + list("a0379:/?@[]{}()<>%+&'*!#$|~^`-._")
+
+
+def pair_cases(full=False, k=0, nshards=1):
+    """Two-character interactions (escapes next to escapes, a backslash in front of digits or quotes ...)."""
+    if full:
+        i = 0
+        for a in range(256):
+            for b in range(256):
+                i += 1
+                if i % nshards == k:
+                    yield {"cookies": [{"name": "k", "value": chr(a) + chr(b)}, {"name": "k2", "value": "x" + chr(a) + chr(b) + "y"}], "tz": "UTC0", "foreign": (a + b) % 2 == 0}
+        return
+    for i, (a, b) in enumerate(itertools.product(HOSTILE, repeat=2)):
+        yield {"cookies": [{"name": "k", "value": a + b}, {"name": "k2", "value": "x" + a + b + "y"}], "tz": "UTC0", "foreign": i % 2 == 0}
+    for i, a in enumerate(HOSTILE):
+        for digits in ("073", "000", "377", "189", "12", "0734"):
+            yield {"cookies": [{"name": "k", "value": a + digits}, {"name": "k2", "value": a + a + digits + a}], "tz": "UTC0", "foreign": i % 2 == 0, "nt": True}
+        for n in (3, 4, 5):
+            yield {"cookies": [{"name": "k", "value": a * n}, {"name": "k2", "value": "p" + a * n + "q"}], "tz": "UTC0", "foreign": i % 2 == 1, "nt": True}
+
+
+def pairs_shard(rec, k, nshards):
+    g = core.guarded(oracle)
+    for case in pair_cases(True, k, nshards):
+        res = g(case)
+        rec.count("pairs", case, res, want_sample=False)
+        new, old = rec.split(res)
+        rec.note_known(old)
+        for f in new:
+            rec.add_violation("pairs", f, case)
+            rec.skip.add(f.bucket)
+
+
+def _utc(y, mo, d, h=0, mi=0, s=0):
+    return calendar.timegm((y, mo, d, h, mi, s, 0, 0, 0))
+
+
+def calendar_instants():
+    """Fixed instants (epoch seconds) that together show every hour, day of month, weekday, month, and the awkward ends of the calendar."""
+    out = []
+    out += [_utc(2031, 3, 5, h, 7, 9) for h in range(24)]  # every hour of a day (12-hour clocks, AM/PM)
+    out += [_utc(2031, 1, d, 12, 34, 56) for d in range(1, 32)]  # every day of a month, every weekday (padding of the day)
+    out += [_utc(2031, m, 15, 1, 2, 3) for m in range(1, 13)]  # every month name
+    for m in range(1, 13):  # first second of every month and the second before it (a local date differs from the GMT date here)
+        out += [_utc(2031, m, 1), _utc(2031, m, 1) - 1]
+    out += [_utc(2031, 12, d, 12) for d in (28, 29, 30, 31)] + [_utc(2032, 1, d, 12) for d in (1, 2, 3, 4)]  # ISO year 2032 starts on 2031-12-29
+    out += [_utc(2026, 12, 31, 23, 59, 59), _utc(2027, 1, 1), _utc(2027, 1, 3, 23, 59, 59), _utc(2027, 1, 4)]  # ISO year 2026 lasts until 2027-01-03
+    out += [_utc(2028, 2, 28, 23, 59, 59), _utc(2028, 2, 29), _utc(2028, 2, 29, 23, 59, 59), _utc(2028, 3, 1)]  # leap year
+    out += [_utc(2100, 2, 28, 23, 59, 59), _utc(2100, 3, 1), _utc(2100, 12, 31, 23, 59, 59)]  # 2100 is not a leap year
+    out += [2**31 - 1, 2**31, 2**31 + 1, 2**32 - 1, 2**32, 2**32 + 1]  # 2038-01-19 03:14:08 and 2106-02-07 06:28:16
+    out += [0, 1, 86399, 86400, _utc(1999, 12, 31, 23, 59, 59), _utc(2000, 2, 29, 12), _utc(2001, 9, 9, 1, 46, 40)]
+    out += [_utc(2999, 12, 31, 23, 59, 59)]
+    return out
+
+
+def dst_instants():
+    """The seconds around DST switches of the zones in DST_ZONES (2031)."""
+    out = []
+    for base in (
+        _utc(2031, 3, 9, 7), _utc(2031, 11, 2, 6),  # US: 02:00 local
+        _utc(2031, 3, 9, 5, 30), _utc(2031, 11, 2, 4, 30),  # Newfoundland
+        _utc(2031, 3, 30, 1), _utc(2031, 10, 26, 1),  # UK
+        _utc(2031, 10, 4, 16), _utc(2031, 4, 5, 16),  # eastern Australia
+        _utc(2031, 10, 4, 15, 30), _utc(2031, 4, 5, 15),  # Lord Howe
+    ):
+        out += [base - 1, base, base + 3599, base + 3600]
+    return out
+
+
+def calendar_cases():
+    others = [z for z in ZONES if z != "UTC0"]
+    for i, at in enumerate(calendar_instants()):
+        for tz in ("UTC0", others[i % len(others)], others[(i * 5 + 3) % len(others)]):
+            yield {"cookies": [{"name": "k", "value": "v", "at": at}], "tz": tz, "foreign": False, "nt": True}
+    for i, at in enumerate(dst_instants()):
+        for tz in DST_ZONES:
+            yield {"cookies": [{"name": "k", "value": "v", "at": at, "max_age": 60}], "tz": tz, "foreign": False, "nt": True}
+    # intervals of 1..13 months from now: in a DST zone some of them cross exactly one switch, whatever the date of the run
+    for tz in DST_ZONES + ["UTC0", "CST-8"]:
+        yield {"cookies": [{"name": f"m{k}", "value": "v", "expires": k * 30 * 86400 + 3601} for k in range(0, 14)], "tz": tz, "foreign": False, "nt": True}
+        yield {"cookies": [{"name": f"h{k}", "value": "v", "expires": k * 3600 + 61} for k in range(0, 25)], "tz": tz, "foreign": False, "nt": True}
+
+
+OPTS = [
+    {},
+    {"path": "/app/x"},
+    {"domain": "example.com"},
+    {"path": "", "domain": ".example.com", "secure": True},
+    {"httponly": True, "samesite": "strict"},
+    {"secure": True, "samesite": "none", "path": "/"},
+    {"path": "/a b", "domain": "sub.example.co.uk", "secure": True, "httponly": True, "samesite": "lax"},
+]
+EXPIRES_GRID = [None, 0, 1, -5, -3 * 86400, 59, 3600, 86399, 400 * 86400, 400 * 86400 + 1, 800 * 86400, 315360000, 630720000, 10**9, 2**31, 2**32 + 5]
+MAX_AGE_GRID = [None, -1, 0, 1, 59, 3600, 10**6, 34560000, 34560001, 10**8, 2**31 - 1, 2**31, 2**40]
+
+
+def attr_cases():
+    i = 0
+    for e in EXPIRES_GRID:
+        for ma in MAX_AGE_GRID:
+            i += 1
+            c = {"name": "k", "value": ["v", "a b", ""][i % 3], "expires": e, "max_age": ma, "opts": OPTS[i % len(OPTS)]}
+            yield {"cookies": [c], "tz": ZONES[i % len(ZONES)], "foreign": i % 2 == 0, "nt": e is not None or ma is not None}
+    # every option set with every samesite value, several cookies with different options on one response
+    for j, o in enumerate(OPTS):
+        for ss in ("strict", "lax", "none"):
+            oo = dict(o, samesite=ss)
+            yield {"cookies": [{"name": "a", "value": "1", "opts": oo}, {"name": "b", "value": 'q"', "expires": 3600, "max_age": 7200, "opts": oo}, {"name": "c", "value": "3", "max_age": 0, "opts": OPTS[(j + 1) % len(OPTS)]}],
+                   "tz": ZONES[(j * 3) % len(ZONES)], "foreign": True, "nt": True}
+
+
+def _set(name, value="v", **kw):
+    return dict({"op": "set", "name": name, "value": value}, **kw)
+
+
+def _del(name, **opts):
+    return {"op": "delete", "name": name, "opts": opts} if opts else {"op": "delete", "name": name}
+
+
+def _wait(s=1.05):
+    return {"op": "wait", "seconds": s}
+
+
+def ops_cases(quick=True):
+    zs = ["UTC0", "CST-8", "HST10", "EST5EDT,M3.2.0,M11.1.0"]
+    basic = [
+        [_set("a"), _del("a")],
+        [_del("a"), _set("a", "again")],
+        [_set("a"), _set("b", "x y"), _del("a")],
+        [_set("a"), _set("b", "x y"), _del("b")],
+        [_set("a", 'q"', expires=60), _del("gone"), _set("b", "", max_age=0)],
+        [_del("a"), _del("b")],
+        [_del("a"), _del("a")],
+        [_del("sid", path="/x"), _del("sid", path="/y")],
+        [_del("sid"), _del("sid", path="/y"), _del("sid", domain="example.com")],
+        [_del("sid", domain="a.example"), _del("sid", domain="b.example")],
+        [_set("sid", "1", opts={"path": "/x"}), _del("sid", path="/y")],
+        [_set("sid", "1", opts={"path": "/x"}), _del("sid", path="/x"), _set("other", "a;b")],
+        [_set("sid", "1", max_age=0), _del("sid", path="/y")],
+        [_set("a", "1", max_age=0, expires=0), _del("b")],
+        [_set("SID", "1"), _del("sid")],
+        [_del("sid"), _set("SID", "1"), _set("Sid", "2")],
+        [_set(f"c{i}", f"v {i}") for i in range(6)] + [_del("c3"), _del("c9")],
+    ]
+    for i, ops in enumerate(basic):
+        for z in (zs if len(ops) < 4 else zs[:2]):
+            yield {"ops": ops, "tz": z, "foreign": i % 2 == 0}
+    # deletion with every option, under every zone in turn
+    for i, o in enumerate(OPTS):
+        for ss in (None, "strict", "lax", "none"):
+            oo = dict(o) if ss is None else dict(o, samesite=ss)
+            yield {"ops": [_set("keep", "1"), _del("sid", **oo), _set("keep2", "2", opts=oo)], "tz": ZONES[(i * 4 + (0 if ss is None else len(ss))) % len(ZONES)], "foreign": False}
+    # deletion of every one-character token name and of the special names
+    for i, ch in enumerate(TOKEN_CHARS):
+        yield {"ops": [_del(ch), _del(ch + ch, path="/p")], "tz": ZONES[i % len(ZONES)]}
+    for i, n in enumerate(SPECIAL_NAMES):
+        yield {"ops": [_set("x" + n, "1"), _del(n)], "tz": ZONES[i % len(ZONES)]}
+    # the response object is sent, changed and sent again (a response is a reusable application)
+    snd = {"op": "send"}
+    for i, ops in enumerate([
+        [_set("a", "1"), snd, _set("b", "x y", expires=60)],
+        [snd, _set("a", "1", max_age=10), snd, _del("a"), snd],
+        [_del("gone"), snd, snd, _set("b", 'q"'), _del("b2", path="/p")],
+        [_set("a", "1"), _set("b", "2"), snd, _set("c", "3"), snd, _set("d", "4")],
+    ]):
+        yield {"ops": ops, "tz": zs[i % len(zs)], "foreign": {"before": 6, "after": 2, "nameless": True}}
+    # time passes between construction of the response, set_cookie and delete_cookie
+    yield {"ops": [_wait(), _set("a", "1", expires=0), _del("d1"), _wait(), _set("b", "2", expires=0, max_age=5), _del("d2"), _set("c", "3", expires=3600)], "tz": "UTC0"}
+    yield {"ops": [_wait(), _del("d1"), _set("a", "1", expires=7)], "tz": "CST-8"}
+    yield {"ops": [_set("a", "1", expires=7), _wait(), _del("d1", path="/x"), _set("b", "2", expires=7)], "tz": "EST5EDT,M3.2.0,M11.1.0"}
+    # through every response class
+    for kind in KINDS:
+        if kind == "empty":
+            continue
+        yield {"ops": [_set("a", 'x;"y', expires=60, max_age=60), _del("gone"), _set("b", "\xe9")], "tz": "UTC0", "kind": kind, "foreign": True}
+        yield {"ops": [_set("a"), _del("a")], "tz": "CST-8", "kind": kind}
+    if not quick:
+        for z in ZONES:
+            for i, ops in enumerate(basic):
+                for kind in KINDS:
+                    yield {"ops": ops, "tz": z, "kind": kind, "foreign": i % 2 == 1}
+
+
+def long_cases(quick=True):
+    sizes = (63, 64, 65, 255, 256, 1023, 1024, 4095, 4096, 4097, 5000, 8192, 16384)
+    for i, n in enumerate(sizes):
+        body = (TOKEN_CHARS * (n // len(TOKEN_CHARS) + 1))[:n]
+        yield {"cookies": [{"name": "k", "value": body}], "tz": "UTC0", "foreign": i % 2 == 0, "nt": True}
+        for sp in (";", '"', "\\", " ", "\n", "\xff"):
+            vals = [body + sp, sp + body, body[:64] + sp + body[64:], body[: n // 2] + sp + sp + body[n // 2:]]
+            if n > 4097:
+                vals.append(body[:4096] + sp + body[4096:])
+            yield {"cookies": [{"name": f"k{j}", "value": v} for j, v in enumerate(vals)], "tz": "UTC0", "foreign": i % 2 == 1}
+    for n in (100, 1000, 1366, 4096):
+        yield {"cookies": [{"name": "k", "value": "\xe9" * n}, {"name": "k2", "value": ('\\"; ,' * n)[:n]}], "tz": "UTC0", "foreign": True}
+    # many cookies on one response
+    for n in (21, 50, 120):
+        yield {"cookies": [{"name": f"c{j}", "value": [f"v{j}", f"v {j}", f'"{j}"', ""][j % 4], "expires": 60 * j if j % 5 == 0 else None, "max_age": j if j % 7 == 0 else None} for j in range(n)],
+               "tz": "CST-8", "foreign": n == 50}
+    # many foreign cookies around ours
+    for before, after in ((60, 0), (0, 60), (30, 30), (51, 1), (200, 200)):
+        yield {"cookies": [{"name": "k", "value": "a b"}, {"name": "k2", "value": "plain"}], "tz": "UTC0", "foreign": {"before": before, "after": after}}
+        yield {"cookies": [{"name": "k", "value": "\xe9;"}], "tz": "UTC0", "foreign": {"before": before, "after": after, "nameless": True}}
+    for before, after in ((0, 0), (1, 0), (0, 1), (14, 14)):
+        yield {"cookies": [{"name": "k", "value": "a b"}, {"name": "k2", "value": "plain"}], "tz": "UTC0", "foreign": {"before": before, "after": after, "nameless": True}}
+    yield {"cookies": [{"name": "k", "value": "x" * 3000 + ";"}, {"name": "k2", "value": "plain"}], "tz": "UTC0", "foreign": {"before": 150, "after": 150}}
+
+
+def class_cases():
+    sets = [
+        [{"name": "sid", "value": "abc"}],
+        [{"name": "a", "value": 'x;"y\\', "expires": 3600, "max_age": 3600}, {"name": "b", "value": "\xe9\xff\x00"}, {"name": "c", "value": "", "max_age": 0}],
+        [{"name": "a", "value": " lead", "opts": {"path": "/p", "domain": "example.com", "secure": True, "httponly": True, "samesite": "none"}}, {"name": "A", "value": "trail ", "expires": -5}],
+    ]
+    for kind in KINDS:
+        for i, cs in enumerate(sets):
+            yield {"cookies": cs, "tz": ["UTC0", "CST-8", "EST5EDT,M3.2.0,M11.1.0"][i], "foreign": i != 0, "kind": kind, "nt": True}
 
 
 _name = st.text(alphabet=TOKEN_CHARS, min_size=1, max_size=6)
@@ -238,6 +688,21 @@ _value = st.one_of(
     st.lists(_hostile, max_size=8).map("".join),
     st.text(alphabet=st.characters(min_codepoint=0, max_codepoint=255), max_size=10),
     st.sampled_from(['"a"', '"', '""', " a", "a ", " ", "", "\\073", '"\\073"', "a;b=c", "a, b", "=", "==", "a=b", "; Secure", "x\r\nSet-Cookie: y=z"]),
+)
+_opts = st.one_of(
+    st.just(None),
+    st.just(None),
+    st.sampled_from(OPTS[1:]),
+    st.fixed_dictionaries(
+        {},
+        optional={
+            "path": st.sampled_from(["/", "/app", "", "/a/b/"]),
+            "domain": st.sampled_from(["example.com", ".example.com", "localhost"]),
+            "secure": st.booleans(),
+            "httponly": st.booleans(),
+            "samesite": st.sampled_from(["strict", "lax", "none"]),
+        },
+    ),
 )
 
 
@@ -252,13 +717,44 @@ def cookie_case(draw):
                 names.insert(draw(st.integers(0, len(names))), variant)
                 if draw(st.booleans()):
                     break
+    if draw(st.integers(0, 5)) == 0:
+        special = draw(st.sampled_from(SPECIAL_NAMES))
+        if special not in names:
+            names.insert(draw(st.integers(0, len(names))), special)
     cookies = []
     for n in names:
         c = {"name": n, "value": draw(_value)}
-        c["expires"] = draw(st.sampled_from([None, None, 0, 1, 3600, 86400 * 400, -5, 59, 86399]))
-        c["max_age"] = draw(st.sampled_from([None, -1, 0, 1, 10**6, 3600]))
+        c["expires"] = draw(st.sampled_from([None, None, 0, 1, 3600, 86400 * 400, -5, 59, 86399, 86400 * 30, 86400 * 200, 86400 * 800, 315360000, 2**31, -86400 * 30]))
+        c["max_age"] = draw(st.sampled_from([None, -1, 0, 1, 10**6, 3600, 34560001, 2**31, 2**40]))
+        o = draw(_opts)
+        if o:
+            c["opts"] = o
         cookies.append(c)
     return {"cookies": cookies, "tz": draw(st.sampled_from(ZONES)), "foreign": draw(st.booleans())}
+
+
+@st.composite
+def ops_case(draw):
+    """Random histories on one response object: a few names (case variants, an attribute-like one), a few option sets so that cookie
+    identities coincide now and then, transmissions in between."""
+    names = st.sampled_from(["a", "b", "A", "sid", "path", "k.1"])
+    opts = st.sampled_from([None, None, None, {"path": "/x"}, {"path": "/y"}, {"domain": "example.com"}, {"path": "", "secure": True}, {"samesite": "none", "httponly": True}])
+    ops = []
+    for _ in range(draw(st.integers(1, 8))):
+        what = draw(st.sampled_from(["set", "set", "set", "delete", "delete", "send"]))
+        if what == "send":
+            ops.append({"op": "send"})
+            continue
+        op = {"op": what, "name": draw(names)}
+        o = draw(opts)
+        if o:
+            op["opts"] = o
+        if what == "set":
+            op["value"] = draw(_value)
+            op["expires"] = draw(st.sampled_from([None, None, 0, 60, -5, 86400 * 800]))
+            op["max_age"] = draw(st.sampled_from([None, None, -1, 0, 5, 2**31]))
+        ops.append(op)
+    return {"ops": ops, "tz": draw(st.sampled_from(ZONES)), "foreign": draw(st.sampled_from([False, True, {"before": 12, "after": 3, "nameless": True}]))}
 
 
 def oracle_atheris(case) -> Result:
@@ -272,6 +768,13 @@ def oracle_atheris(case) -> Result:
 
 SUBS["atheris"] = oracle_atheris
 SUBS["names"] = oracle
+SUBS["calendar"] = oracle
+SUBS["attrs"] = oracle
+SUBS["long"] = oracle
+SUBS["pairs"] = oracle
+SUBS["classes"] = oracle
+SUBS["ops"] = oracle_ops
+SUBS["ops_rand"] = oracle_ops
 
 
 def run(rec, only=None):
@@ -280,7 +783,23 @@ def run(rec, only=None):
     rec.exhaustive["values"] = True
     core.drive_cases(rec, "names", name_cases(), oracle)
     rec.exhaustive["names"] = True
+    core.drive_cases(rec, "calendar", calendar_cases(), oracle)
+    rec.exhaustive["calendar"] = True
+    core.drive_cases(rec, "attrs", attr_cases(), oracle)
+    rec.exhaustive["attrs"] = True
+    core.drive_cases(rec, "ops", ops_cases(quick), oracle_ops)
+    rec.exhaustive["ops"] = True
+    core.drive_cases(rec, "long", long_cases(quick), oracle)
+    rec.exhaustive["long"] = True
+    core.drive_cases(rec, "classes", class_cases(), oracle)
+    rec.exhaustive["classes"] = True
+    core.drive_cases(rec, "pairs", pair_cases(), oracle, sample=False)
+    if not quick and (only is None or "pairs" in only):
+        core.run_sharded(rec, pairs_shard, 32, core.ncpu())
+    rec.exhaustive["pairs"] = True
     core.drive_hypothesis(rec, "cookies", cookie_case(), oracle, 1200 if quick else 30000)
+    core.drive_hypothesis(rec, "ops_rand", ops_case(), oracle_ops, 400 if quick else 12000, seed_offset=1)
+    rec.exhaustive["ops_rand"] = False
     core.drive_cases(rec, "delete", ({"tz": z, "name": n} for z in ZONES for n in ("session", "a.b")), oracle_delete)
     rec.exhaustive["cookies"] = False
     rec.exhaustive["delete"] = True
